@@ -775,7 +775,7 @@ def corr_bytes(run, inj):
     keys.fixed(7)
     sample = inj.byte_cases
     hcases = [[s, raw] for (s, k, raw) in sample]
-    himpl = [lib.guarded(lambda s=s, raw=raw: S.unpack_header_obj(PacketHeader.from_bytes(bool(s), raw))) for s, raw in hcases]
+    himpl = [lib.guarded(lambda s=s, raw=raw: _unpack_header_obj(PacketHeader.from_bytes(bool(s), raw))) for s, raw in hcases]
     hmodel = run.model.call_many("hdr_dec", hcases)
     run.compare("hdr_dec", hcases, himpl, hmodel)
     # key holder: the slices handed to AES-GCM, then the parse given the real library's answer
@@ -823,8 +823,6 @@ def _unpack_header_obj(hdr):
     return [1 if hdr.isServer else 0, hdr.ctime, int(hdr.seq), int(hdr.ack), hdr.pkt_type.value, hdr.length,
             hdr.count, hdr.ack_bits]
 
-
-S.unpack_header_obj = _unpack_header_obj
 
 
 # ------------------------------------------------------------------ entry point
